@@ -32,7 +32,9 @@ trait Codec<T: Identity>: Sized {
     fn decode_header<B: Buf>(&mut self, buf: &mut B) -> (r: core::result::Result<Header<T>, Self::Error>)
         ensures
             (match r { Ok(h) => (*old(buf)).bytes() == Self::hdr_bytes(h) + (*final(buf)).bytes(), Err(_) => true }),
-            exists|k: int| 0 <= k <= (*old(buf)).bytes().len() && (*final(buf)).bytes() == (*old(buf)).bytes().skip(k);
+            exists|k: int| 0 <= k <= (*old(buf)).bytes().len() && (*final(buf)).bytes() == (*old(buf)).bytes().skip(k),
+            // A-codec (self-delimiting): an encoded header followed by anything decodes to that header and stops right after it
+            forall|h: Header<T>, rest: Seq<u8>| (*old(buf)).bytes() == #[trigger] (Self::hdr_bytes(h) + rest) ==> r is Ok && r->Ok_0 == h && (*final(buf)).bytes() == rest;
 
     fn encode_member<B: BufMut>(&mut self, member: &Member<T>, buf: &mut B) -> (r: core::result::Result<(), Self::Error>)
         ensures
@@ -45,7 +47,8 @@ trait Codec<T: Identity>: Sized {
     fn decode_member<B: Buf>(&mut self, buf: &mut B) -> (r: core::result::Result<Member<T>, Self::Error>)
         ensures
             (match r { Ok(m) => (*old(buf)).bytes() == Self::mem_bytes(m) + (*final(buf)).bytes(), Err(_) => true }),
-            exists|k: int| 0 <= k <= (*old(buf)).bytes().len() && (*final(buf)).bytes() == (*old(buf)).bytes().skip(k);
+            exists|k: int| 0 <= k <= (*old(buf)).bytes().len() && (*final(buf)).bytes() == (*old(buf)).bytes().skip(k),
+            forall|m: Member<T>, rest: Seq<u8>| (*old(buf)).bytes() == #[trigger] (Self::mem_bytes(m) + rest) ==> r is Ok && r->Ok_0 == m && (*final(buf)).bytes() == rest;
 }
 
 // The handler's answers are arbitrary (A-handler); `calls()` is the ghost record of what it was shown.
